@@ -47,7 +47,12 @@ def interp_linear(x, xs, ys, fill):
     x = np.asarray(x, float)
     xs = np.asarray(xs, float)
     ys = np.asarray(ys, float)
-    out = np.full(x.shape, float(fill))
+    if np.ndim(fill) > 0:
+        # the documented two-element form: (value below the first sample, value above the last one)
+        below, above = (float(v) for v in fill)
+        out = np.where(x < xs[0], below, above).astype(float)
+    else:
+        out = np.full(x.shape, float(fill))
     # a wavelength that agrees with the first / last sample to a few ulp IS that sample (unit conversions are exact only to
     # rounding): it belongs to the range
     x = np.where(np.abs(x - xs[0]) <= NOMINAL * abs(xs[0]), xs[0], x)
